@@ -98,6 +98,17 @@ def rule_is_solved(ctx: Ctx, prog: Program) -> None:
     ctx.fn(fn.fq)
     MIN, MAX = prog.C("MIN"), prog.C("MAX")
     if len(fn.params) != 2:
+        # a further parameter that is iterated over (the variables' domain indices, the decision domains): groundness is tested for the
+        # shared domains it lists only -- enough for the reported vector to be an assignment, not for the enumeration to distinguish
+        # solutions that differ on a shared domain no variable shows (C02)
+        extra = set(fn.params[2:])
+        iterated = [x for x in ast.walk(fn.node) if isinstance(x, (ast.For, ast.comprehension)) and isinstance(x.iter, ast.Name) and x.iter.id in extra]
+        indexed = [x for x in ast.walk(fn.node) if isinstance(x, ast.Subscript) and any(isinstance(y, ast.Name) and y.id in extra for y in ast.walk(x.slice))]
+        if iterated or indexed:
+            ctx.violation("R-SOLVED", fn.path, "is_solved", "all-domains", fn.loc(),
+                          f"is_solved tests the shared domains listed by its parameter '{sorted(extra)[0]}' instead of every shared domain at level stacks_top[0]: a shared "
+                          "domain outside that list (one no variable refers to) may still hold several values when a solution is reported")
+            return
         raise AnalysisError("is_solved: expected (stack, top)")
     st_, tp = fn.params
     it = Interp(prog)
